@@ -17,6 +17,8 @@ ASSUMPTIONS = ["multiplier values themselves are C01's business"]
 
 def r_align(ctx):
     ca = formula.get(ctx.repo)
+    if formula._generators_by_program(ctx, ca, "table", "R-ALIGN"):
+        return
     # ---- two-list generator
     g = ca.gens[K.GEN_TWO]
     fn = g.fn
@@ -144,6 +146,8 @@ def _dataframe(ctx, fn, g, table, two):
 
 def r_name(ctx):
     ca = formula.get(ctx.repo)
+    if formula._generators_by_program(ctx, ca, "table", "R-NAME"):
+        return
     for name, g in ca.gens.items():
         fn = g.fn
         sets = [c for c in ast.walk(g.loops[-1]["node"]) if isinstance(c, ast.Call) and call_name(c) == "set_name" and dotted(c.func.value) == g.cons_var]
